@@ -76,6 +76,9 @@ WHAT = {
                                          "cannot be rebuilt from its 0-d value: copy/deepcopy/subset(int) of t[i] raise TypeError",
     "c04_hash_python_float": "a single Time built from one datetime keeps jd1/jd2 as Python floats; it equals the element t[0] of "
                              "an array (numpy.float64) but __hash__ hashes str() of the one and the bytes of the other",
+    "c04_insert_into_rebuilt_empty_text": "TimeArray.insert(a, pos, b) raises when a is an empty datetime / text array that was rebuilt "
+                                          "(subset selecting nothing, copy, ...): its values are float64, np.insert cannot put "
+                                          "datetimes / strings into them",
     "c04_delattr_allowed": "__setattr__ is blocked but __delattr__ is not: `del t.fmt` succeeds and breaks the array",
 }
 
@@ -85,6 +88,7 @@ FMT_TAG = {"jd": 0, "mjd": 1, "gps_ws": 2, "days": 3, "seconds": 4, "datetime": 
 NEAR_FMTS = ("datetime", "isot", "jd~", "mjd~", "gps_ws~")
 NEAR_OFFSETS_US = (0, 10, 11, 0, 16, 36)
 DELTA_FMTS = ("days", "seconds")
+TEXT_FMTS = ("datetime", "isot")      # formats whose values are not floats
 
 
 # ----------------------------------------------------------------------------- configurations
@@ -472,6 +476,15 @@ class History:
     def step(self, op):
         """returns (obsres, changed) ; obsres = ('err',) | ('obj', oobs) | ('list', [oobs]) | ('other', text)"""
         cfg, tok = self.cfg, self.tok
+        mark = False
+        if op[0] == "insert" and cfg.fmt in TEXT_FMTS:
+            # class of c04_insert_into_rebuilt_empty_text, decided on the real objects before the call
+            try:
+                a, b_ = self.objs[op[1]], self.objs[op[3]]
+                va = np.asarray(a)
+                mark = (va.ndim >= 1 and va.shape[0] == 0 and va.dtype.kind == "f" and np.asarray(b_).size > 0)
+            except Exception:
+                mark = False
         try:
             r = apply_op(op, self.objs, cfg)
         except NotATime as e:
@@ -511,6 +524,8 @@ class History:
                 now = ("broken", str(e))
             if now != self.birth[i]:
                 changed.append(i)
+        if mark and res[0] == "err" and not changed:
+            changed = [-1]
         return res, changed
 
     def summary(self, k):
@@ -749,7 +764,7 @@ def node_term(cfg, tok, path, depth, rich_levels, meta):
             kids.append(node_term(cfg, tok, path + [op], depth, rich_levels, meta))
     ob = "OErr" if res[0] == "other" else obsres_term(res)
     return ("(Node " + op_term(path[-1]) + " " + ob + " "
-            + emit.lst(str(c) for c in changed) + " " + emit.lst(kids) + ")")
+            + emit.lst(emit.z(c) for c in changed) + " " + emit.lst(kids) + ")")
 
 
 def case_term(cfg, tok, rootobs, tries):
@@ -798,7 +813,7 @@ def _task_random(args):
     for op, res, changed in reversed(nodes):
         ob = "OErr" if res[0] == "other" else obsres_term(res)
         opt = op_term(op)
-        term = "(Node " + opt + " " + ob + " " + emit.lst(str(c) for c in changed) + " " + emit.lst([term] if term else []) + ")"
+        term = "(Node " + opt + " " + ob + " " + emit.lst(emit.z(c) for c in changed) + " " + emit.lst([term] if term else []) + ")"
     return case_term(cfg, tok, rootobs, [term] if term else []), meta
 
 
@@ -1270,6 +1285,10 @@ def plan(ctx):
                 base = [o for o in first_ops(cfg) if o not in first_ops_rich_only(cfg)]
                 for op in base:
                     trees.append((n, fmt, op, 2, 0))
+        # directed: an emptied datetime / text array (subset selecting nothing), then everything of the alphabet on it
+        for fmt in TEXT_FMTS:
+            trees.append((1, fmt, ("subset", 0, ("slice", 0, -1, 1)), 2, 0))
+            trees.append((3, fmt, ("subset", 0, ("slice", 0, 0, 1)), 2, 0))
         n_rnd, ln = 400, 30
     else:
         for fmt in ("jd", "gps_ws", "days"):
@@ -1448,6 +1467,14 @@ def run(ctx):
                 ctx.case((i, idx), nontrivial=depth >= 2)
                 ctx.count(f"verdict:{verdict}")
                 if verdict == 0:
+                    continue
+                if verdict == 50:
+                    fid = "c04_insert_into_rebuilt_empty_text"
+                    ctx.count(f"quirk:{fid}")
+                    if any(k.get("id") == fid and k.get("status", "open") == "open" for k in ctx.known):
+                        ctx.finding(fid, WHAT[fid], {})
+                    elif fid not in unknown or (depth, cfg_key[0]) < unknown[fid][:2]:
+                        unknown[fid] = (depth, cfg_key[0], cfg_key, path(), verdict, other, ())
                     continue
                 if verdict >= 2 and verdict - 1 < len(VARIANTS):
                     qs = VARIANTS[verdict - 1]
